@@ -75,7 +75,7 @@ class Ctx:
         if s == "unknown":
             # scheduling-dependent solver state: re-ask before anything is concluded from it
             s, _ = robust.escalate(list(self.solver.assertions()) + list(extra),
-                                   self.query_timeout_ms, want_model=False)
+                                   self.query_timeout_ms, want_model=False, light=True)
         self.solver_s += time.time() - t0
         if s == "unknown":
             self.unknowns += 1
